@@ -1319,13 +1319,14 @@ Proof.
   unfold exponent_out_of_range in E. apply orb_false_iff in E as [_ E]. apply Z.ltb_ge in E. exact E.
 Qed.
 
-(* a value that ToXText converts is within the size budget (the walk of the budget and the writing are in proportion
-   to its cost) *)
-Lemma to_text_within_budget : forall v t, to_text v = Ok t -> v = VNil \/ value_cost false 0 v <= max_render_size.
+(* a value that ToXText converts is nil, a text (which is not written again) or within the size budget (the walk of the
+   budget and the writing are in proportion to its cost) *)
+Lemma to_text_within_budget : forall v t, to_text v = Ok t ->
+  v = VNil \/ (exists s, v = VText s) \/ value_cost false 0 v <= max_render_size.
 Proof.
   intros v t. unfold to_text, too_large.
-  destruct v; try (intros _; left; reflexivity); try discriminate;
-    (destruct (max_render_size <? _) eqn:E; [discriminate|]; intros _; right; apply Z.ltb_ge in E; exact E).
+  destruct v; try (intros _; left; reflexivity); try discriminate; try (intros _; right; left; eexists; reflexivity);
+    (destruct (max_render_size <? _) eqn:E; [discriminate|]; intros _; right; right; apply Z.ltb_ge in E; exact E).
 Qed.
 
 (* what foreach collects: the costs (as JSON) of the items add up to at most the budget it starts with *)
